@@ -45,6 +45,14 @@ type bcCase struct {
 	// ListPartitionReassignmentsRequest); Len: length field of a runt / shortbody frame
 	Hv  int `json:"hv"`
 	Len int `json:"len"`
+	// Timed (write-deadline family): the server stays silent for the first call while further requests
+	// keep being written on the connection (no-response sends every 50 ms until the verdict, or a
+	// second call 100 ms later); the silent call must be back about ReadTimeout (RtMs) after it was
+	// written, not WriteTimeout (WtMs) after the last write. BoundMs is the generous bound.
+	Timed   bool `json:"timed"`
+	RtMs    int  `json:"rtms"`
+	WtMs    int  `json:"wtms"`
+	BoundMs int  `json:"boundms"`
 	// Impatient: before going on, wait only for the first of the returns the model expects
 	Impatient bool     `json:"impatient"`
 	Steps     []bcStep `json:"steps"`
@@ -117,6 +125,65 @@ func (r *bcRec) waitFor(pred func() bool, timeout time.Duration) bool {
 	}
 }
 
+// ---------------------------------------------------------------- load-aware time bounds
+
+// bcTicks is advanced by a goroutine that sleeps 5 ms at a time: on a starved machine it advances
+// more slowly than the wall clock, and so do the time bounds built on it.
+var bcTicks int64
+
+func bcHeartbeat(stop <-chan struct{}) {
+	for {
+		select {
+		case <-stop:
+			return
+		default:
+		}
+		time.Sleep(5 * time.Millisecond)
+		atomic.AddInt64(&bcTicks, 1)
+	}
+}
+
+// bcBound is a time bound that only expires when BOTH the wall clock and this process's own
+// progress (heartbeat ticks, at least 60 % of the nominal rate) say that d has passed; after 8*d
+// of wall time without that progress it reports "starved" instead of "expired".
+type bcBound struct {
+	t0    time.Time
+	tick0 int64
+	d     time.Duration
+}
+
+func bcNewBound(d time.Duration) *bcBound {
+	return &bcBound{t0: time.Now(), tick0: atomic.LoadInt64(&bcTicks), d: d}
+}
+
+func (b *bcBound) state() (expired, starved bool) {
+	el := time.Since(b.t0)
+	if el < b.d {
+		return false, false
+	}
+	need := int64(float64(b.d/(5*time.Millisecond)) * 0.6)
+	if atomic.LoadInt64(&bcTicks)-b.tick0 >= need {
+		return true, false
+	}
+	if el >= 8*b.d {
+		return true, true
+	}
+	return false, false
+}
+
+// waitBound waits until pred holds or the load-aware bound d has expired
+func (r *bcRec) waitBound(pred func() bool, d time.Duration) (ok, starved bool) {
+	b := bcNewBound(d)
+	for {
+		if r.waitFor(pred, 25*time.Millisecond) {
+			return true, false
+		}
+		if exp, st := b.state(); exp {
+			return r.waitFor(pred, time.Millisecond), st
+		}
+	}
+}
+
 // ---------------------------------------------------------------- raw frame server
 
 type bcReq struct {
@@ -132,10 +199,11 @@ type bcServer struct {
 	// guarded by rec.mu
 	unans  []bcReq
 	nrecv  int
-	ended  bool // no further frames will be sent
-	closed bool // the server closed the connection
-	hv     int  // response header version
-	rlen   int  // length field of runt / shortbody frames
+	ended  bool  // no further frames will be sent
+	closed bool  // the server closed the connection
+	noresp int64 // requests without response received
+	hv     int   // response header version
+	rlen   int   // length field of runt / shortbody frames
 	// after a stalled body nothing is sent before the call of the stalled request has returned
 	// (the bytes would be taken for the missing body, which no client can detect)
 	stallTag string
@@ -167,6 +235,11 @@ func (s *bcServer) readLoop(c net.Conn) {
 			return
 		}
 		tag := "?"
+		if _, isProduce := req.body.(*ProduceRequest); isProduce {
+			// a request without response (acks = 0): nothing to answer, not part of the in-flight count
+			atomic.AddInt64(&s.noresp, 1)
+			continue
+		}
 		switch m := req.body.(type) {
 		case *MetadataRequest:
 			if len(m.Topics) == 1 {
@@ -421,7 +494,9 @@ func bcRunCase(c *bcCase, hang time.Duration, st *bcStats) ([]bcEvent, error) {
 	defer srv.shutdown()
 
 	rt := 1500 * time.Millisecond
-	if bcNeedsShortTimeout(c) {
+	if c.RtMs > 0 {
+		rt = time.Duration(c.RtMs) * time.Millisecond
+	} else if bcNeedsShortTimeout(c) {
 		rt = 60 * time.Millisecond
 	}
 	conf := NewConfig()
@@ -431,6 +506,9 @@ func bcRunCase(c *bcCase, hang time.Duration, st *bcStats) ([]bcEvent, error) {
 	conf.Net.MaxOpenRequests = c.Max
 	conf.Net.ReadTimeout = rt
 	conf.Net.WriteTimeout = 2 * time.Second
+	if c.WtMs > 0 {
+		conf.Net.WriteTimeout = time.Duration(c.WtMs) * time.Millisecond
+	}
 	conf.Net.DialTimeout = 3 * time.Second
 	srv.hv, srv.rlen = c.Hv, c.Len
 	b := NewBroker(srv.ln.Addr().String())
@@ -559,11 +637,51 @@ func bcRunCase(c *bcCase, hang time.Duration, st *bcStats) ([]bcEvent, error) {
 		}()
 	}
 
+	// requests without response (acks = 0 produce): scripted ones are gated by "fired", the periodic
+	// ones of a timed case run until told to stop
+	nfired, nfires := 0, 0
+	fire := func(gated bool) {
+		rec.mu.Lock()
+		nfires++
+		tag := fmt.Sprintf("f.%d", nfires)
+		outstanding[tag] = 0
+		rec.mu.Unlock()
+		errs := ""
+		defer func() {
+			if p := recover(); p != nil {
+				errs = "panic"
+			}
+			rec.ev(bcEvent{Ev: "fire_ret", Tag: tag, Err: errs}, func() {
+				if _, ok := outstanding[tag]; ok {
+					delete(outstanding, tag)
+					if gated {
+						nfired++
+					}
+				}
+			})
+		}()
+		rec.ev(bcEvent{Ev: "fire_start", Tag: tag}, nil)
+		req := &ProduceRequest{RequiredAcks: NoResponse, Timeout: 1000}
+		req.AddMessage("t", 0, &Message{Value: []byte(tag)})
+		b.Produce(req) // the outcome (nil, a write error, ErrNotConnected) does not matter, returning does
+	}
+	firesInScript := false
+	for _, s := range c.Steps {
+		if s.A == "fire" {
+			firesInScript = true
+		}
+	}
+	bound := time.Duration(c.BoundMs) * time.Millisecond
+	if bound <= 0 {
+		bound = 2500 * time.Millisecond
+	}
+
 	diverged := false
 	silenced := false // the script asked for silence: the drive-to-completion phase must not answer
 	why := ""
 	stepNo := 0
 	wantWrites, wantRets, wantClosed, pending, slow := 0, 0, false, false, false
+	wantFired := 0
 	flushedRets := 0
 	flush := func() {
 		if !pending {
@@ -584,7 +702,7 @@ func bcRunCase(c *bcCase, hang time.Duration, st *bcStats) ([]bcEvent, error) {
 		}
 		flushedRets = wantRets
 		ok := rec.waitFor(func() bool {
-			return srv.nrecv >= wantWrites && nret >= needRets && (!wantClosed || closeReturned)
+			return srv.nrecv >= wantWrites && nret >= needRets && nfired >= wantFired && (!wantClosed || closeReturned)
 		}, to)
 		if !ok && !diverged {
 			diverged = true
@@ -605,8 +723,20 @@ func bcRunCase(c *bcCase, hang time.Duration, st *bcStats) ([]bcEvent, error) {
 		case "closed":
 			wantClosed = true
 			pending = true
+		case "fired":
+			wantFired++
+			pending = true
+		case "fire":
+			flush()
+			if c.Timed {
+				time.Sleep(50 * time.Millisecond)
+			}
+			go fire(true)
 		case "start":
 			flush()
+			if c.Timed && wantWrites > 0 {
+				time.Sleep(100 * time.Millisecond) // the second request goes out while the first one is being waited for
+			}
 			startCall(s.C)
 		case "close":
 			flush()
@@ -622,6 +752,55 @@ func bcRunCase(c *bcCase, hang time.Duration, st *bcStats) ([]bcEvent, error) {
 			flush() // silence: the next gates wait for the read timeout to fail the call
 			slow = true
 			silenced = true
+			if c.Timed {
+				// write-deadline family: writes go on (variant with no-response sends) while the oldest
+				// request stays unanswered; its call must be back within the load-aware bound
+				rec.mu.Lock()
+				tag := ""
+				if len(srv.unans) > 0 {
+					tag = srv.unans[0].tag
+				}
+				rec.mu.Unlock()
+				if tag == "" {
+					break
+				}
+				stop := make(chan struct{})
+				stopped := make(chan struct{})
+				go func() {
+					defer close(stopped)
+					for firesInScript {
+						select {
+						case <-stop:
+							return
+						case <-time.After(50 * time.Millisecond):
+						}
+						fire(false)
+					}
+				}()
+				back, starved := rec.waitBound(func() bool { return srv.returned(tag) }, bound)
+				kind := "returned"
+				if !back {
+					kind = "outstanding"
+					if starved {
+						kind = "starved"
+					}
+				}
+				rec.mu.Lock()
+				if srv.returned(tag) {
+					kind = "returned"
+				}
+				rec.add(bcEvent{Ev: "rt_check", Tag: tag, Kind: kind, N: int(rt / time.Millisecond)})
+				rec.mu.Unlock()
+				close(stop)
+				select {
+				case <-stopped:
+				case <-time.After(hang): // a send that hangs is reported by the watchdog below
+				}
+				if kind != "returned" {
+					srv.answer("close") // release the call: the verdict is in, do not wait for WriteTimeout
+				}
+				slow = false
+			}
 		default:
 			return nil, fmt.Errorf("unknown step %q", s.A)
 		}
@@ -631,7 +810,8 @@ func bcRunCase(c *bcCase, hang time.Duration, st *bcStats) ([]bcEvent, error) {
 
 	// drive to completion: answer whatever is still unanswered (only after a divergence),
 	// then every call must return within the watchdog bound
-	deadline := time.Now().Add(hang)
+	hb := bcNewBound(hang)
+	expired := func() bool { e, _ := hb.state(); return e }
 	for {
 		rec.mu.Lock()
 		left := len(outstanding)
@@ -640,7 +820,7 @@ func bcRunCase(c *bcCase, hang time.Duration, st *bcStats) ([]bcEvent, error) {
 		if left == 0 {
 			break
 		}
-		if time.Now().After(deadline) {
+		if expired() {
 			break
 		}
 		if canAnswer {
@@ -650,7 +830,7 @@ func bcRunCase(c *bcCase, hang time.Duration, st *bcStats) ([]bcEvent, error) {
 			srv.answer("ok")
 			continue
 		}
-		if time.Now().After(deadline) {
+		if expired() {
 			break
 		}
 		rec.waitFor(func() bool { return len(outstanding) < left || len(srv.unans) > 0 }, 20*time.Millisecond)
@@ -664,14 +844,18 @@ func bcRunCase(c *bcCase, hang time.Duration, st *bcStats) ([]bcEvent, error) {
 	for _, tag := range hung {
 		id := outstanding[tag]
 		delete(outstanding, tag)
-		rec.add(bcEvent{Ev: "call_ret", C: id, Tag: tag, Err: "hang"})
+		if strings.HasPrefix(tag, "f.") {
+			rec.add(bcEvent{Ev: "fire_ret", Tag: tag, Err: "hang"})
+		} else {
+			rec.add(bcEvent{Ev: "call_ret", C: id, Tag: tag, Err: "hang"})
+		}
 		atomic.AddInt64(&st.hangs, 1)
 	}
 	rec.mu.Unlock()
 
 	// Close (the one of the script, or a final one) must return too
 	startClose()
-	if !rec.waitFor(func() bool { return closeReturned }, hang) {
+	if ok, _ := rec.waitBound(func() bool { return closeReturned }, hang); !ok {
 		rec.mu.Lock()
 		if !closeReturned {
 			closeReturned = true
@@ -710,6 +894,9 @@ func TestVerifBrokerConn(t *testing.T) {
 	hang := time.Duration(vEnvInt("VERIF_BC_HANG_MS", 4000)) * time.Millisecond
 	par := vEnvInt("VERIF_BC_PAR", 4*runtime.GOMAXPROCS(0))
 
+	stopHB := make(chan struct{})
+	go bcHeartbeat(stopHB)
+	defer close(stopHB)
 	oldPH := PanicHandler
 	PanicHandler = bcPanicHandler
 	defer func() { PanicHandler = oldPH }()
